@@ -220,7 +220,7 @@ int KSI_TlvElement_serialize(const KSI_TlvElement *element, unsigned char *buf, 
 		dat_len = element->ftlv.dat_len;
 
 		if (buf != NULL) {
-			if (buf_size <= dat_len) {
+			if (buf_size < dat_len) {
 				res = KSI_BUFFER_OVERFLOW;
 				goto cleanup;
 			}
